@@ -86,3 +86,25 @@ func TestC03DivScaleF64PassesS0Through(t *testing.T) {
 		t.Errorf("v_div_scale_f64 set the scale flag for ordinary operands")
 	}
 }
+
+// C06: v_div_fmas_f64 must honour the VCC bit of every lane, not only lane 0.
+func TestC06DivFmasF64UsesTheLanesOwnVCCBit(t *testing.T) {
+	s := newDemo(insts.VOP3a, 483)
+	s.inst.Src0 = insts.NewVRegOperand(0, 0, 2)
+	s.inst.Src1 = insts.NewVRegOperand(2, 2, 2)
+	s.inst.Src2 = insts.NewVRegOperand(4, 4, 2)
+	s.inst.Dst = insts.NewVRegOperand(6, 6, 2)
+	s.exec = 0b11
+	s.vcc = 0b11
+	for lane := 0; lane < 2; lane++ {
+		s.WriteOperand(s.inst.Src0, lane, math.Float64bits(1.5))
+		s.WriteOperand(s.inst.Src1, lane, math.Float64bits(2.0))
+		s.WriteOperand(s.inst.Src2, lane, math.Float64bits(0.25))
+	}
+	NewALU(nil).Run(s)
+	l0 := math.Float64frombits(s.ReadOperand(s.inst.Dst, 0))
+	l1 := math.Float64frombits(s.ReadOperand(s.inst.Dst, 1))
+	if l0 != l1 {
+		t.Errorf("identical inputs and VCC bits in lanes 0 and 1 give %g and %g", l0, l1)
+	}
+}
